@@ -3,7 +3,7 @@
    subtree that sat below p, after the subtree's root was put below q under the name n') *)
 From Coq Require Import List NArith Bool Permutation.
 Import ListNotations.
-Require Import V.C38.Spec V.C38.Clauses V.C38.Rows V.C38.Paths V.C39.Proofs V.C39.Tie V.C40.Refuted.
+Require Import V.C38.Spec V.C38.Clauses V.C38.Rows V.C38.Paths V.C39.Proofs V.C39.Tie V.C40.Pinned.
 Open Scope N_scope.
 
 (* every object survives with its identity and all attributes (multiset), every connection survives
@@ -59,14 +59,6 @@ Theorem C39_spec_move_without_descendants :
          /\ (n' = oname k \/ In (oname k) (names (a ++ b)) \/ In (oname k) (names (firstn i ks'))).
 Proof. exact spec_move_alone. Qed.
 
-(* d2oracle.Rename does not choose the name the specification (and RenameIDDeltas) choose for nested
-   objects: faithful model of its two-step name generation (V.C40.Refuted), witnesses replayed on the
-   real code by the harness (recorded finding C39-rename-unique-name-wrong-scope) *)
-Theorem C39_rename_name_refuted_for_nested_objects :
-  (go_rename_name g_rename 3 [99] = Some [99; 32; 50] /\ spec_rename_name g_rename 3 [99] = Some [99])
-  /\ (go_rename_name g_rename2 3 [99] = Some [99; 32; 51] /\ spec_rename_name g_rename2 3 [99] = Some [99; 32; 50]).
-Proof. exact rename_root_scope_refuted. Qed.
-
 (* the executable clauses (codes 11-21) that Check.v evaluates on the IMPLEMENTATION's before/after for a
    rename / move step hold on the specification's own output, for every graph that passes the
    executable well-formedness test (code 2) *)
@@ -96,4 +88,3 @@ Print Assumptions C39_spec_rename_subtree_follows.
 Print Assumptions C39_spec_move_subtree_follows.
 Print Assumptions C39_spec_move_without_descendants.
 Print Assumptions C39_spec_satisfies_executable_clauses.
-Print Assumptions C39_rename_name_refuted_for_nested_objects.
